@@ -49,7 +49,8 @@ Proof.
   pose proof (encode_not_conn c m w) as He.
   destruct (encode c m w) as [r we ee]. cbn [rv rw re] in *.
   destruct r as [[n wm]|x]; msimp; [|congruence].
-  destruct (wr we); msimp; [apply persist_out_not_conn|discriminate].
+  destruct (wr we); msimp; [|discriminate].
+  destruct (skip_journal m); [discriminate|apply persist_out_not_conn].
 Qed.
 
 (* the gates: refuse (nothing changed), pass (nothing changed), or - from NETWORK_CONN_ESTABLISHED with a
@@ -738,7 +739,7 @@ Proof.
       - unfold process_resend.
         assert (Hl : forall rows a b, keeps okstate (replay_loop c rows a b)) by apply replay_loop_okstate.
         keeps_step; [keeps_tac|]. keeps_step; [kst|]. keeps_step; [keeps_tac|]. keeps_step; [keeps_tac|].
-        keeps_step; [kst|]. keeps_step; [keeps_tac|]. keeps_step; [kst|]. keeps_step; [apply Hl|].
+        keeps_step; [kst|]. keeps_step; [keeps_tac|]. keeps_step; [apply Hl|].
         kst.
       - unfold process_testrequest. kst.
       - unfold process_heartbeat. keeps_step; [keeps_tac|]. destruct (treq a0); [|keeps_tac].
